@@ -34,6 +34,32 @@ var bases = []base{
 	{"where/left-join", "SELECT * FROM t LEFT JOIN u ON t.a = u.b", "SELECT * FROM t LEFT JOIN u ON t.a = u.b WHERE %P", "SELECT t.*, u.*, (%P) AS f FROM t LEFT JOIN u ON t.a = u.b", "t.b", "u.a", "u.b"},
 	{"having/grouped", "SELECT t.a AS ga, COUNT(*) AS c, MAX(t.b) AS m FROM t GROUP BY t.a", "SELECT t.a AS ga, COUNT(*) AS c, MAX(t.b) AS m FROM t GROUP BY t.a HAVING %P", "", "ga", "m", "c"},
 	{"on/inner-join", "SELECT * FROM t JOIN u ON t.a = u.a", "SELECT * FROM t JOIN u ON (t.a = u.a) AND (%P)", "", "t.b", "u.b", "t.a"},
+	// string bases (tables w / wi are added by this check to every database: same rows, wi has KEY(s))
+	{"where/strings", "SELECT * FROM w", "SELECT * FROM w WHERE %P", "SELECT w.*, (%P) AS f FROM w", "w.s", "w.r", "w.s"},
+	{"where/strings-indexed", "SELECT * FROM wi", "SELECT * FROM wi WHERE %P", "SELECT wi.*, (%P) AS f FROM wi", "wi.s", "wi.r", "wi.s"},
+	{"on/strings-join", "SELECT * FROM w JOIN wi ON w.k = wi.k", "SELECT * FROM w JOIN wi ON (w.k = wi.k) AND (%P)", "", "w.s", "wi.r", "wi.s"},
+}
+
+const firstStringBase = 5
+
+// extra tables for the string bases: every prefix/successor relationship a LIKE 'p%' -> range
+// rewrite can get wrong ('ab' vs 'ac' = prefix with its last code point incremented, 'abc', case
+// variants, the wildcard characters themselves, empty string, NULL).
+var stringDDL = []string{
+	"create table w (k int, s varchar(10), r varchar(10))",
+	"create table wi (k int, s varchar(10), r varchar(10), key ks (s))",
+}
+
+var stringRows = "(1,NULL,'a'),(2,'','a'),(3,'a','a'),(4,'ab','ab'),(5,'ac','ab'),(6,'abc','ab'),(7,'b','a'),(8,'B','b'),(9,'AB','ab'),(10,'a%','a'),(11,'ab_','ab'),(12,'aa','b'),(13,'abd',NULL),(14,'ab\u00ff','ab')"
+
+func stringAtoms() []string {
+	return []string{
+		"X LIKE 'ab%'", "X LIKE 'a%'", "X LIKE 'b%'", "X LIKE '%b'", "X LIKE 'a_'", "X LIKE 'ab'", "X LIKE 'a\\%'", "X LIKE 'ab\\_'", "X LIKE ''", "X LIKE '%'", "X LIKE NULL", "X LIKE 'AB%'", "X LIKE 'a%c'", "X LIKE '_b%'",
+		"X NOT LIKE 'ab%'", "X NOT LIKE 'a%'", "X LIKE CONCAT(Y, '%')", "X LIKE Y", "Y LIKE 'a%'",
+		"X >= 'ab' AND X < 'ac'", "X = 'ab'", "X <> 'ab'", "X < 'b'", "X <= 'ab'", "X > 'ab'", "X >= 'ac'", "X <=> NULL", "X <=> 'a'", "X BETWEEN 'a' AND 'ac'", "X NOT BETWEEN 'ab' AND 'b'", "X IN ('a', 'ac')", "X NOT IN ('ab', NULL)", "X IN (Y, 'b')",
+		"X REGEXP '^a'", "LEFT(X, 1) = 'a'", "X COLLATE utf8mb4_0900_ai_ci LIKE 'AB%'", "X COLLATE utf8mb4_0900_ai_ci = 'AB'", "CONCAT(X, 'x') LIKE 'abx%'", "X IS NULL", "X IS NOT NULL", "LENGTH(X) = 2", "X = Y", "X < Y", "STRCMP(X, Y) = 0",
+		"X LIKE 'ab%' AND Y = 'ab'", "X LIKE 'a%' OR Y IS NULL", "NOT (X LIKE 'ab%') AND X >= 'ab'",
+	}
 }
 
 var ops = []string{"=", "<>", "<", "<=", ">", ">=", "<=>"}
@@ -115,6 +141,17 @@ func subst(tpl string, b base) string {
 
 func isWord(c byte) bool {
 	return c == '_' || (c >= 'a' && c <= 'z') || (c >= 'A' && c <= 'Z') || (c >= '0' && c <= '9')
+}
+
+// load builds the database and adds the string tables.
+func load(spec qgen.DBSpec) *qrun.Loaded {
+	l := qrun.Load(spec)
+	for _, q := range stringDDL {
+		l.Sess.MustExec(q)
+	}
+	l.Sess.MustExec("insert into w values " + stringRows)
+	l.Sess.MustExec("insert into wi values " + stringRows)
+	return l
 }
 
 type tcase struct {
@@ -231,7 +268,7 @@ func minimise(spec qgen.DBSpec, bi int, pr pred, f *failure) (qgen.DBSpec, strin
 	tpl := pr.Tpl
 	// a compound predicate is reduced to one of its atoms (or its negation) when that alone
 	// fails the same clause
-	l0 := qrun.Load(spec)
+	l0 := load(spec)
 	for _, part := range pr.Parts {
 		done := false
 		for _, cand := range []string{part, "NOT (" + part + ")"} {
@@ -250,7 +287,7 @@ func minimise(spec qgen.DBSpec, bi int, pr pred, f *failure) (qgen.DBSpec, strin
 		for _, t := range []string{"t", "u", "v"} {
 			for i := range spec.T[t] {
 				ns := spec.Without(t, i)
-				nf, skip, _, sq := check(qrun.Load(ns), bi, tpl)
+				nf, skip, _, sq := check(load(ns), bi, tpl)
 				if !skip && nf != nil && nf.clause == f.clause {
 					spec, f, sqls, changed = ns, nf, sq, true
 					break
@@ -290,14 +327,26 @@ func init() {
 				specs = sel
 			}
 			preds := predicates(r.Thorough())
+			var spreds []pred
+			for _, a := range stringAtoms() {
+				spreds = append(spreds, pred{a, nil}, pred{"NOT (" + a + ")", []string{a}})
+			}
 			r.Info("predicates", len(preds))
+			r.Info("string_predicates", len(spreds))
 			r.Info("databases", len(specs))
 			r.Info("bases", len(bases))
 			idx := int64(0)
 			for _, sp := range specs {
 				var l *qrun.Loaded
 				for bi := range bases {
-					for _, pr := range preds {
+					plist := preds
+					if bi >= firstStringBase {
+						if sp.Family != "star" {
+							continue // the string tables are the same in every database
+						}
+						plist = spreds
+					}
+					for _, pr := range plist {
 						tpl := pr.Tpl
 						idx++
 						if !r.Mine(idx) {
@@ -308,7 +357,7 @@ func init() {
 							return
 						}
 						if l == nil {
-							l = qrun.Load(sp)
+							l = load(sp)
 						}
 						r.Eval()
 						f, skip, nt, _ := check(l, bi, tpl)
@@ -337,7 +386,7 @@ func init() {
 			if json.Unmarshal(w, &c) != nil {
 				return
 			}
-			f, skip, _, _ := check(qrun.Load(c.Spec), c.Base, c.Pred)
+			f, skip, _, _ := check(load(c.Spec), c.Base, c.Pred)
 			if !skip && f != nil {
 				r.Violate(core.Violation{Clause: f.clause, Kind: f.kind, Subject: subject(f, c.Base, c.Pred, c.Spec), Witness: w, Observed: f.obs, Expected: f.exp})
 			}
